@@ -163,14 +163,14 @@ func runOverlap(ov overlap) overlapObs {
 	go func() { wg.Wait(); close(done) }()
 	select {
 	case <-done:
-	case <-time.After(10 * time.Second):
-		obs.Err = "queued operations did not finish within 10s"
+	case <-time.After(30 * time.Second):
+		obs.Err = "queued operations did not finish within 30s"
 		return obs
 	}
 	select {
 	case obs.GateOut = <-gateDone:
-	case <-time.After(10 * time.Second):
-		obs.Err = "the gate operation did not finish within 10s"
+	case <-time.After(30 * time.Second):
+		obs.Err = "the gate operation did not finish within 30s"
 		return obs
 	}
 	obs.Outs = outs
